@@ -111,6 +111,7 @@ fn play(args: &[String]) -> i32 {
                         return 2;
                     }
                 };
+                tp.inst.timeout = std::time::Duration::from_secs(900);
                 let a = tp.inst.call("brc20_mine", json!([base, 5]));
                 let b = tp.inst.call("brc20_commitToDatabase", json!([]));
                 tp.inst.close();
